@@ -70,6 +70,13 @@ func (in *Interp) parseDecimal(s Str, signedOK bool, fn string, bits int) (val *
 	if len(b) == 0 {
 		return ts.Const(64, 0), in.numError(fn, s, "ErrSyntax")
 	}
+	// leading zeros do not change the value
+	for len(b) > 1 && b[0].IsConst() && b[0].Val == '0' {
+		b = b[1:]
+	}
+	if v, ok := in.decProv[provKey(b)]; ok && bits == 64 && !neg {
+		return v, Iface{}
+	}
 	var cs []*Term
 	for _, d := range b {
 		cs = append(cs, ts.Ule(in.byteConst('0'), d), ts.Ule(d, in.byteConst('9')))
